@@ -55,6 +55,7 @@ type isoScript struct {
 	Focus   int  // stream whose behaviour is compared in differential mode
 	Reuse   bool // the broker reuses the stream id alias of a closed upstream
 	HasCut  bool
+	Unrel   bool // the connection has a datagram side (unreliable streams use it)
 }
 
 type isoObs struct {
@@ -155,6 +156,10 @@ func genIsoScript(s *Sim) *isoScript {
 	if nDown > 0 && t.Bool("flood-one-downstream", 1, 12) {
 		flood = nUp + t.Choose("flood-which", nDown)
 	}
+	// a connection with a datagram side that stops taking data for a while (a full send queue): the
+	// unreliable streams wait, the others are not concerned
+	sc.Unrel = t.Bool("datagram-side", 1, 3)
+	stallDatagrams := sc.Unrel && !sc.Reuse && t.Bool("datagram-side-stalls", 1, 2)
 	sc.Focus = t.Choose("focus", len(sc.Streams))
 	n := Pick(t, "len", 40, 20, 80)
 	if s.Tier == "thorough" {
@@ -166,6 +171,12 @@ func genIsoScript(s *Sim) *isoScript {
 		if slowClose >= 0 && i == n/3 {
 			sc.Acts = append(sc.Acts, isoAct{Kind: "slow-close", Stream: -1, Target: slowClose, ID: t.Choose("w-id", 3)})
 			sc.Acts = append(sc.Acts, isoAct{Kind: "open-late", Stream: lateStream})
+		}
+		if stallDatagrams && i == n/5 {
+			sc.Acts = append(sc.Acts, isoAct{Kind: "stall-datagrams", Stream: -1})
+		}
+		if stallDatagrams && i == (4*n)/5 {
+			sc.Acts = append(sc.Acts, isoAct{Kind: "resume-datagrams", Stream: -1})
 		}
 		if flood >= 0 && i == n/4 {
 			sc.Acts = append(sc.Acts, isoAct{Kind: "flood", Stream: flood})
@@ -229,6 +240,7 @@ func genIsoScript(s *Sim) *isoScript {
 func execIsoScript(s *Sim, sc *isoScript, only int) map[int]*isoObs {
 	bc := BrokerCfg{AutoReq: true, AutoAck: true, AutoPong: true, AutoCallAck: true, AutoAckComplete: true, AliasInAck: true, ReuseAliases: sc.Reuse}
 	y := newSys(s, bc)
+	s.Net.Unrel = sc.Unrel
 	y.Enc, y.PingInterval, y.PingTimeout = sc.Enc, sc.PingIv, sc.PingTo
 	s.yieldDensity = 0
 	in := func(i int) bool { return only < 0 || i == only || i < 0 }
@@ -435,6 +447,15 @@ func execIsoScript(s *Sim, sc *isoScript, only int) map[int]*isoObs {
 			y.Advance(a.D)
 		case "pump":
 			y.Pump()
+		case "stall-datagrams":
+			for _, l := range y.aliveLinks() {
+				l.StallUnreliable()
+			}
+			s.Stat("env.datagram-side-stalled")
+		case "resume-datagrams":
+			for _, l := range y.allLinks() {
+				l.ResumeUnreliable()
+			}
 		case "refuse":
 			if h := ups[a.Stream]; h != nil && h.B != nil {
 				h.B.RefuseResume = message.ResultCodeStreamNotFound
